@@ -64,7 +64,12 @@ def flav(rng, leafs_have_nan=False, dom="float"):
             "route": rng.choice(ROUTES_ANY if leafs_have_nan else ROUTES_DEF + ROUTES_ANY),
             "mat": rng.choice(MATS), "scalar": rng.choice(SCALARS),
             "vec": rng.choice(["list", "ndarray", "series", "tuple"]),
-            "lroute": rng.choice(["list", "frame", "series", "series_offset", "tuple", "ndarray", "short"])}
+            "lroute": rng.choice(["list", "frame", "series", "series_offset", "tuple", "ndarray", "short"]),
+            # the closed side as an equal-but-distinct string object / operands that went through pickle; windows as tuple,
+            # list, or one list object reused by every call; collection containers kept across aggregations
+            "closedobj": rng.choice(["literal", "literal", "built", "pickle"]),
+            "wherearg": rng.choice(["tuple", "list", "reuse"]),
+            "persist": rng.random() < 0.5}
 
 
 def has_nan(leaf):
@@ -1094,9 +1099,15 @@ def gen_C18(rng, tier):
                 acc = r
                 r += 1
             prog.append(C.query(m, "identical", a=C.reg(acc)))
+        if rng.random() < 0.25:         # the same collection is aggregated again after a member gained step points
+            i = rng.randrange(m)
+            top = (allpts[-1] if allpts else F(0)) + 1
+            prog.append(C.layer_s(i, top, top + rng.choice([F(1), F(2)]), rng.choice([F(1), F(2)])))
+            prog.append(C.agg(80, g if rng.random() < 0.6 else rng.choice(GFUNCS), list(range(m))))
+            prog += observe_all(80, leaf_points((allpts + [top, top + 1, top + 2], None)))
         fl = flav(rng, any(has_nan(l) for l in leaves))
         fl["coll"] = rng.choice(COLLS)
-        exact = g not in ("mean",) or m in (1, 2, 4)
+        exact = (g not in ("mean",) or m in (1, 2, 4)) and not any(st.get("g") == "mean" and m not in (1, 2, 4) for st in prog if st["s"] == "agg")
         extra_kind = rng.choice(["none", "arrbin_arr", "arrbin_one", "arrbin_const", "table", "cov"])
         nxt = 3 * m + 5
         allp = leaf_points((allpts, None))
@@ -1162,6 +1173,14 @@ def gen_C20(rng, tier):
             d = rng.choice([F(0), F(1), F(-1), F(1, 2), F(-5, 2), F(3)])
             prog.append(C.shift(1, 0, d))
             prog += observe_all(1, leaf_points(f, [p + d for p in f[0]]))
+            if f[0] and rng.random() < 0.35:     # an exact translation shares nothing with the operand: layer either in place
+                tgt = rng.choice([0, 1])
+                pts_t = [p + (d if tgt == 1 else 0) for p in f[0]]
+                a = rng.choice(pts_t)
+                prog.append(C.layer_s(tgt, a, rng.choice(pts_t + [None]), rng.choice([F(1), F(-2)])))
+                prog += observe_all(1 - tgt, leaf_points(f, [p + d for p in f[0]])) + [C.read(0, "deltas"), C.read(1, "deltas")]
+                if rng.random() < 0.5:
+                    prog += [C.diff(5, 0, F(1)), C.query(0, "rolling", l=F(-1), rr=F(1), lo=f[0][0], hi=f[0][-1] + 2)]
             tag = "shift"
         elif kind == 1:
             d = rng.choice([F(1), F(-1), F(1, 2), F(2), F(0)])
@@ -1176,7 +1195,8 @@ def gen_C20(rng, tier):
             hi = rng.choice([None] + [p for p in pts if lo is None or p > lo])
             prog.append(C.query(0, "rolling", l=l, rr=r, lo=lo, hi=hi))
             tag = "rolling"
-        cases.append(mk(f"C20/{tag}/{k}", prog, flav(rng, has_nan(f)), mode="tol" if tag == "rolling" else "exact", tags=[tag]))
+        tol = tag == "rolling" or any(st.get("q") == "rolling" for st in prog)
+        cases.append(mk(f"C20/{tag}/{k}", prog, flav(rng, has_nan(f)), mode="tol" if tol else "exact", tags=[tag]))
     return cases
 
 
@@ -1227,6 +1247,25 @@ def gen_C17(rng, tier):
             fl = dict(base_fl)
             fl["dom"] = dom
             cases.append(mk(f"C17/{k}/{dom}", P, fl, mode="tol", tags=[dom]))
+    # values so large that value x length overflows a Timedelta on the datetime-like domains: the mean (computed by the
+    # fall-back path there) must still be the one of the numeric domains; the integral is not queried (it raises
+    # OverflowError on those domains by design)
+    for k in range(max(4, n // 8)):
+        big = F(2 ** rng.choice([34, 36, 40]))
+        pts = sorted(rng.sample([F(j) for j in range(0, 12)], rng.randint(3, 5)))
+        vals = [rng.choice([F(0), None])] + [rng.choice([big, 2 * big, 3 * big, None, F(0)]) for _ in pts[:-1]] + [F(0)]
+        if all(v is None or v == 0 for v in vals[1:-1]):
+            vals[1] = big
+        f = (pts, vals)
+        c = rng.choice(SIDES)
+        P = [leaf_stmt(0, f, c), C.query(0, "mean"), C.query(0, "agg", name="mean", lo=pts[0], hi=pts[-1]),
+             C.query(0, "slicer", stat="mean", icl="left", ivs=[(pts[0], pts[-1])]), C.query(0, "value_sums"),
+             C.query(0, "max"), C.query(0, "sample", xs=pts)]
+        base_fl = flav(rng, has_nan(f))
+        for dom in DOMS:
+            fl = dict(base_fl)
+            fl["dom"] = dom
+            cases.append(mk(f"C17/big/{k}/{dom}", P, fl, mode="tol", tags=[dom, "big"]))
     return cases
 
 
